@@ -134,6 +134,44 @@ func init() {
 		"r.unregisterSubscriptionLocked", "r.removeSubscriptionLocked", "r.detachTriggerLocked", "closeSubs", "res.triggerCancel", "cancel", "delete", "s.removed.CompareAndSwap",
 		"trig.initialized.*", "go", "r.executeStartupHooks", "add.resolve.Trigger.Source.Start", "sub.writeError", "s.writeError", "r.doneTriggerFromUpdater", "r.markTriggerInitialized",
 		"r.UnsubscribeSubscription", "r.removeClient", "context.WithCancel", "trig.snapshotSubscriptions", "defer:verifYield"}
+	// C19: message-type switches, close codes and call skeletons of the two protocol handlers, the read loop and the engine
+	tws := "execution/subscription/websocket/protocol_graphql_transport_ws.go"
+	lws := "execution/subscription/websocket/protocol_graphql_ws.go"
+	eng := "execution/subscription/engine.go"
+	hnd := "execution/subscription/handler.go"
+	wsm := []string{"if", "return", "go:*", "p.*", "engine.*", "g.*", "NewCloseReason", "e.*", "eventHandler.Emit", "u.*", "errors.As", "defer:*", "select", "recv:*", "executor.*", "buf.*"}
+	specs["C19"] = []item{
+		{Kind: "conds", File: tws, Func: "ProtocolGraphQLTransportWSHandler.Handle", Name: "transportTypeSwitch"},
+		{Kind: "conds", File: lws, Func: "ProtocolGraphQLWSHandler.Handle", Name: "legacyTypeSwitch"},
+		{Kind: "conds", File: tws, Func: "GraphQLTransportWSEventHandler.Emit", Name: "transportEmitSwitch"},
+		{Kind: "conds", File: lws, Func: "GraphQLWSWriteEventHandler.Emit", Name: "legacyEmitSwitch"},
+		{Kind: "args", File: tws, Name: "transportCloseCodes", Names: []string{"NewCloseReason"}},
+		{Kind: "consts", File: tws, Name: "transportTypeNames", Typ: "string", Names: []string{"GraphQLTransportWSMessageTypeConnectionInit", "GraphQLTransportWSMessageTypeConnectionAck",
+			"GraphQLTransportWSMessageTypePing", "GraphQLTransportWSMessageTypePong", "GraphQLTransportWSMessageTypeSubscribe", "GraphQLTransportWSMessageTypeNext",
+			"GraphQLTransportWSMessageTypeError", "GraphQLTransportWSMessageTypeComplete"}},
+		{Kind: "consts", File: lws, Name: "legacyTypeNames", Typ: "string", Names: []string{"GraphQLWSMessageTypeConnectionInit", "GraphQLWSMessageTypeConnectionAck", "GraphQLWSMessageTypeConnectionError",
+			"GraphQLWSMessageTypeConnectionTerminate", "GraphQLWSMessageTypeConnectionKeepAlive", "GraphQLWSMessageTypeStart", "GraphQLWSMessageTypeStop", "GraphQLWSMessageTypeData",
+			"GraphQLWSMessageTypeError", "GraphQLWSMessageTypeComplete"}},
+		{Kind: "calls", File: tws, Func: "ProtocolGraphQLTransportWSHandler.Handle", Name: "transportHandle", Match: wsm},
+		{Kind: "calls", File: tws, Func: "ProtocolGraphQLTransportWSHandler.handleInit", Name: "transportHandleInit", Match: wsm},
+		{Kind: "calls", File: tws, Func: "ProtocolGraphQLTransportWSHandler.handleSubscribe", Name: "transportHandleSubscribe", Match: wsm},
+		{Kind: "calls", File: tws, Func: "ProtocolGraphQLTransportWSHandler.handleComplete", Name: "transportHandleComplete", Match: wsm},
+		{Kind: "calls", File: tws, Func: "ProtocolGraphQLTransportWSHandler.startConnectionInitTimer", Name: "transportStartTimer", Match: wsm},
+		{Kind: "calls", File: tws, Func: "ProtocolGraphQLTransportWSHandler.startHeartbeat", Name: "transportStartHeartbeat", Match: wsm},
+		{Kind: "calls", File: tws, Func: "GraphQLTransportWSEventHandler.Emit", Name: "transportEmit", Match: wsm},
+		{Kind: "calls", File: tws, Func: "GraphQLTransportWSMessageReader.Read", Name: "transportRead", Match: []string{"json.*", "if", "return", "bytes.*", "io.*"}},
+		{Kind: "calls", File: lws, Func: "ProtocolGraphQLWSHandler.Handle", Name: "legacyHandle", Match: wsm},
+		{Kind: "calls", File: lws, Func: "ProtocolGraphQLWSHandler.handleInit", Name: "legacyHandleInit", Match: wsm},
+		{Kind: "calls", File: lws, Func: "GraphQLWSMessageReader.Read", Name: "legacyRead", Match: []string{"json.*", "if", "return", "bytes.*", "io.*"}},
+		{Kind: "calls", File: eng, Func: "ExecutorEngine.StartOperation", Name: "engineStartOperation", Match: wsm},
+		{Kind: "calls", File: eng, Func: "ExecutorEngine.StopSubscription", Name: "engineStopSubscription", Match: wsm},
+		{Kind: "calls", File: eng, Func: "ExecutorEngine.TerminateAllSubscriptions", Name: "engineTerminateAll", Match: wsm},
+		{Kind: "calls", File: eng, Func: "ExecutorEngine.checkForDuplicateSubscriberID", Name: "engineCheckDuplicate", Match: wsm},
+		{Kind: "calls", File: eng, Func: "ExecutorEngine.startSubscription", Name: "engineStartSubscription", Match: wsm},
+		{Kind: "calls", File: eng, Func: "ExecutorEngine.executeSubscription", Name: "engineExecuteSubscription", Match: wsm},
+		{Kind: "calls", File: eng, Func: "ExecutorEngine.handleNonSubscriptionOperation", Name: "engineHandleNonSubscription", Match: wsm},
+		{Kind: "calls", File: hnd, Func: "UniversalProtocolHandler.Handle", Name: "readLoop", Match: wsm},
+	}
 	gds := "v2/pkg/engine/datasource/graphql_datasource/graphql_datasource.go"
 	specs["C13"] = []item{
 		{Kind: "calls", File: rsv, Func: "Resolver.addSubscription", Name: "addSubscription", Match: regm},
